@@ -41,13 +41,15 @@ theorem loop_needs_neutral_body (b : Comp) (k : Int) (hk : k ≠ 0) (hb : effect
 /-- An unknown component is never assumed harmless. -/
 theorem opaque_refused : effect (.leaf .opaque) = none := rfl
 
-/-- The recorded ILS defect, exhibited on the model: one outer pass (the nested local search makes no pass
-of its own) of the shipped `real_ils` tree, as regenerated from the code, ends with TWO populations on the
-stack and the pass is not height-neutral. (`real_ils_v*_balanced` below only says the analysis refuses the tree.) -/
-theorem ils_leak_exhibited :
-    (exec ⟨fun t => t == 3, fun _ => false, fun _ => 0⟩ 200 real_ils_v0
+/-- ILS after the repair 364645e (the scoped local search is the `ls` loop only), on the tree as regenerated from
+the code: one outer pass with one pass of the nested local search ends with ONE population on the stack and every
+pass was height-neutral. (Before the repair the same execution ended with two populations: the scoped search brought
+its own initialisation.) The general statement is `real_ils_v*_balanced` / `permutation_ils_v*_balanced` below
+together with `balanced_sound`. -/
+theorem ils_pass_balanced_exhibited :
+    (exec ⟨fun t => t == 3 || t == 8, fun _ => false, fun _ => 0⟩ 200 real_ils_v0
       { height := 0, tick := 0, passesBalanced := true }).map (fun s => (s.height, s.passesBalanced))
-      = some (2, false) := by decide
+      = some (1, true) := by decide
 
 /-! Non-vacuity: a concrete run of a concrete balanced tree. -/
 example : balanced real_ga_v0 = true := by decide
@@ -91,14 +93,14 @@ theorem permutation_ls_v0_balanced : balanced permutation_ls_v0 = true := by dec
 theorem permutation_ls_v1_balanced : balanced permutation_ls_v1 = true := by decide
 theorem permutation_ls_v2_balanced : balanced permutation_ls_v2 = true := by decide
 theorem permutation_ls_v3_balanced : balanced permutation_ls_v3 = true := by decide
-theorem real_ils_v0_balanced : balanced real_ils_v0 = false := by decide
-theorem real_ils_v1_balanced : balanced real_ils_v1 = false := by decide
-theorem real_ils_v2_balanced : balanced real_ils_v2 = false := by decide
-theorem real_ils_v3_balanced : balanced real_ils_v3 = false := by decide
-theorem permutation_ils_v0_balanced : balanced permutation_ils_v0 = false := by decide
-theorem permutation_ils_v1_balanced : balanced permutation_ils_v1 = false := by decide
-theorem permutation_ils_v2_balanced : balanced permutation_ils_v2 = false := by decide
-theorem permutation_ils_v3_balanced : balanced permutation_ils_v3 = false := by decide
+theorem real_ils_v0_balanced : balanced real_ils_v0 = true := by decide
+theorem real_ils_v1_balanced : balanced real_ils_v1 = true := by decide
+theorem real_ils_v2_balanced : balanced real_ils_v2 = true := by decide
+theorem real_ils_v3_balanced : balanced real_ils_v3 = true := by decide
+theorem permutation_ils_v0_balanced : balanced permutation_ils_v0 = true := by decide
+theorem permutation_ils_v1_balanced : balanced permutation_ils_v1 = true := by decide
+theorem permutation_ils_v2_balanced : balanced permutation_ils_v2 = true := by decide
+theorem permutation_ils_v3_balanced : balanced permutation_ils_v3 = true := by decide
 theorem real_rs_v0_balanced : balanced real_rs_v0 = true := by decide
 theorem real_rs_v1_balanced : balanced real_rs_v1 = true := by decide
 theorem real_rs_v2_balanced : balanced real_rs_v2 = true := by decide
